@@ -60,6 +60,7 @@ Record svrow := {
 (* table volume_sectors, with the storage_volumes row volume_id points to and the
    stored_sectors row sector_id points to (None when sector_id is NULL) *)
 Record vsrow := {
+  vs_volume_id : N;                (* INTEGER NOT NULL REFERENCES storage_volumes(id): the column itself *)
   vs_volume_index : N;             (* INTEGER NOT NULL *)
   vs_sector_id : option N;         (* INTEGER UNIQUE REFERENCES stored_sectors(id) *)
   vs_sector_writes : N;            (* INTEGER NOT NULL *)
